@@ -78,12 +78,12 @@ def plan(tier: str, seed: int) -> Plan:
     rng = random.Random(seed)
     T = 150 if thorough else 40
     items = list(HAND)
-    trees = list(cat.CORE_LOGICAL) + cat.sample_logical(rng, 120 if thorough else 6, 3)
+    trees = list(cat.CORE_LOGICAL) + cat.sample_logical(rng, 400 if thorough else 6, 3)
     for t in trees:
         items.append((oracle.query_text(cat.fq(t)), "objarr", {"leaf": "int"}))
     sel = list(cat.CORE_SELECTOR_QUERIES)
     if thorough:
-        sel += [(q, rng.choice(["nest1", "nest2", "nest3", "deep", "numkeys"])) for q in cat.selector_queries(3, rng, 60, 30)]
+        sel += [(q, rng.choice(["nest1", "nest2", "nest3", "deep", "numkeys"])) for q in cat.selector_queries(3, rng, 200, 100)]
     else:
         sel = sel[::3]
     for q, s in sel:
